@@ -401,7 +401,7 @@ pub fn run_concurrent(sc: &Scenario) -> RunReport {
     let r = on_fresh_thread(sc.key_seed, move || {
         let mut rep = RunReport::default();
         os::install(os::SimOs::new());
-        if sc.mode == "shared_code" {
+        if sc.mode == "shared_code" || sc.mode == "shared_fn" {
             return run_shared_code(&sc, rep);
         }
         let interp = match build_world() {
@@ -622,9 +622,21 @@ fn run_shared_code(sc: &Scenario, mut rep: RunReport) -> RunReport {
             return rep;
         }
     };
-    // sequential reference, plain mode
+    if sc.mode == "shared_fn" {
+        return run_shared_fn(sc, rep);
+    }
+    // sequential reference, plain mode - on a SEPARATELY parsed Code, so that the Code the threads
+    // share has never been executed before they start (no sequential warm-up of lazily
+    // initialised state inside instructions)
     let before = os::with(|o| o.stdout.len()).unwrap_or(0);
-    let seq = match guarded(|| code.exec()) {
+    let reference_code = match guarded(|| Code::parse(&interp, &sc.prog)) {
+        Ok(Ok(c)) => c,
+        _ => {
+            rep.harness_error = Some("shared program does not parse a second time".into());
+            return rep;
+        }
+    };
+    let seq = match guarded(|| reference_code.exec()) {
         Ok(r) => match r {
             Ok(v) => cvar(&v),
             Err(e) => format!("Err({})", exec_err_name(&e)),
@@ -711,6 +723,188 @@ fn run_shared_code(sc: &Scenario, mut rep: RunReport) -> RunReport {
     rep
 }
 
+/// Threads share one Function value and call it with their OWN arguments (values of different
+/// types, different arrays to iterate ...): no cell is shared; every call must return what the same
+/// call returns sequentially. `prog` defines the function (its last expression); `threads[t]`
+/// holds, as `Attack` texts, the argument lists of thread t's calls.
+fn run_shared_fn(sc: &Scenario, mut rep: RunReport) -> RunReport {
+    let build = |rep: &mut RunReport| -> Option<(Interpreter<'static>, Arc<simplesl::function::Function>)> {
+        let mut interp = Interpreter::with_stdlib();
+        let code = match guarded(|| Code::parse(&interp, &sc.prog)) {
+            Ok(Ok(c)) => c,
+            other => {
+                rep.harness_error = Some(format!("shared function program rejected: {:?}", other.map(|r| r.map(|_| ()).map_err(|e| e.to_string()))));
+                return None;
+            }
+        };
+        match guarded(|| code.exec_unscoped(&mut interp)) {
+            Ok(Ok(Variable::Function(f))) => Some((interp, f)),
+            _ => {
+                rep.harness_error = Some("shared function program did not yield a function".into());
+                None
+            }
+        }
+    };
+    let arg_values = |interp: &Interpreter, text: &str| -> Option<Vec<Variable>> {
+        // the argument list is evaluated as a tuple (one argument: a parenthesised expression)
+        let code = Code::parse(interp, &format!("[{text}]")).ok()?;
+        match code.exec().ok()? {
+            Variable::Array(a) => Some(a.iter().cloned().collect()),
+            _ => None,
+        }
+    };
+    // sequential reference on its own function value
+    let Some((ref_interp, ref_f)) = build(&mut rep) else { return rep };
+    let mut want: Vec<Vec<String>> = Vec::new();
+    for t in &sc.threads {
+        let mut w = Vec::new();
+        for op in t {
+            let OpKind::Attack(text) = &op.kind else { continue };
+            let Some(args) = arg_values(&ref_interp, text) else {
+                rep.harness_error = Some(format!("argument list `{text}` does not evaluate"));
+                return rep;
+            };
+            let r = match guarded(|| ref_f.clone().create_call(args).map(|c| c.exec())) {
+                Ok(Ok(Ok(v))) => cvar(&v),
+                Ok(Ok(Err(e))) => format!("Err({})", exec_err_name(&e)),
+                Ok(Err(e)) => format!("rejected({})", crate::canon::cerror(&e)),
+                Err(p) => {
+                    rep.harness_error = Some(format!("sequential reference call panicked: {p}"));
+                    return rep;
+                }
+            };
+            w.push(r);
+        }
+        want.push(w);
+    }
+    os::with(|o| o.stdout.clear());
+    // the shared function: never executed before the threads start
+    let Some((interp, f)) = build(&mut rep) else { return rep };
+    let mut codes: Vec<Vec<(String, Code)>> = Vec::new();
+    for t in &sc.threads {
+        let mut v = Vec::new();
+        for op in t {
+            let OpKind::Attack(text) = &op.kind else { continue };
+            let Some(args) = arg_values(&interp, text) else { continue };
+            match guarded(|| f.clone().create_call(args)) {
+                Ok(Ok(c)) => v.push((text.clone(), c)),
+                _ => {
+                    rep.harness_error = Some(format!("create_call rejected `{text}`"));
+                    return rep;
+                }
+            }
+        }
+        codes.push(v);
+    }
+    let codes = Arc::new(codes);
+    let shared = Arc::new(Shared {
+        codes: vec![],
+        hist: Mutex::new(vec![]),
+        stamp: AtomicU64::new(0),
+        lock_policy: sc.lock_policy,
+        lock_result: Mutex::new(None),
+        results: Mutex::new(Vec::new()),
+        inflight: Mutex::new(vec![]),
+    });
+    let sh = shared.clone();
+    let cs = codes.clone();
+    let exec = sched::run_once(sc.policy.clone(), sc.sched_seed, move || {
+        sync::sim_begin(sh.lock_policy);
+        let mut handles = Vec::new();
+        for t in 0..cs.len() {
+            let sh2 = sh.clone();
+            let cs2 = cs.clone();
+            handles.push(shuttle::thread::spawn(move || {
+                for (i, (_, code)) in cs2[t].iter().enumerate() {
+                    let r = match code.exec() {
+                        Ok(v) => cvar(&v),
+                        Err(e) => format!("Err({})", exec_err_name(&e)),
+                    };
+                    sh2.results.lock().unwrap().push((t * 1000 + i, r));
+                }
+            }));
+        }
+        for h in handles {
+            h.join().unwrap();
+        }
+        *sh.lock_result.lock().unwrap() = Some(sync::sim_end());
+    });
+    sync::sim_abort();
+    rep.choices = exec.choices.clone();
+    rep.diverged = exec.diverged;
+    rep.context_switches = exec.context_switches;
+    if let Some((events, probes)) = shared.lock_result.lock().unwrap().take() {
+        rep.lock_events = events.len() as u64;
+        rep.probes = probes;
+    }
+    rep.schedule_digest = digest(&format!("{:?}", exec.choices));
+    let results = shared.results.lock().unwrap_or_else(|p| p.into_inner()).clone();
+    for (k, r) in &results {
+        rep.log.push(format!("T{} call {} `{}` -> {r}", k / 1000, k % 1000, codes[k / 1000][k % 1000].0));
+    }
+    match exec.verdict {
+        Verdict::Completed => {}
+        Verdict::Deadlock(_) => {
+            rep.violation = Some(("deadlock".into(), "all threads blocked while calling a shared function with their own arguments".into()));
+            return rep;
+        }
+        Verdict::Panic(m) => {
+            rep.violation = Some(("panic".into(), format!("{m} (threads calling one shared function with their own arguments)")));
+            return rep;
+        }
+        Verdict::Harness(m) => {
+            rep.harness_error = Some(m);
+            return rep;
+        }
+    }
+    rep.events = results.len() as u64 + rep.lock_events;
+    for (k, r) in &results {
+        let (t, i) = (k / 1000, k % 1000);
+        if want[t].get(i) != Some(r) {
+            rep.violation = Some((
+                "seq-differs".into(),
+                format!("thread {t}: the call ({}) on the shared function returned {r} but sequentially it returns {:?}", codes[t][i].0, want[t].get(i)),
+            ));
+            return rep;
+        }
+    }
+    rep.history_digest = digest(&format!("{results:?}"));
+    os::uninstall();
+    rep
+}
+
+/// (program whose last expression is the shared function, argument lists to draw from)
+pub const SHARED_FNS: &[(&str, &[&str])] = &[
+    (
+        "f := (x: int|string|float|[int]|bool) -> string { return match x { i: int => \"int\", s: string => \"string\", d: float => \"float\", a: [int] => \"ints\", b: bool => \"bool\", } }; f",
+        &["7", "\"s\"", "2.5", "[1, 2]", "true", "0", "\"\""],
+    ),
+    (
+        "g := (xs: [int|string|float]) -> [int] { return (xs~ ? int) $] }; g",
+        &["[1, \"a\", 2]", "[\"b\"]", "[3, 4, 5]", "[2.5, 6]", "[]"],
+    ),
+    (
+        "h := (x: int|float, y: int|float) -> int { a := if v: int = x { v } else { 0 }; b := if w: int = y { w * 10 } else { 0 }; return a + b }; h",
+        &["1, 2", "1.5, 2", "3, 4.5", "0.5, 0.5", "7, 7"],
+    ),
+    (
+        "s := (xs: [int], k: int) -> int { return (xs~ @ (v: int) -> int { return v * k } ? (v: int) -> bool { return v % 2 == 0 }) $+ }; s",
+        &["[1, 2, 3], 2", "[5], 3", "[], 9", "[2, 4, 6, 8], 1", "[7, 7], 4"],
+    ),
+    (
+        "r := (v: any) -> string { return std.convert.to_string([[v, [v]], (v, [[v]])]) }; r",
+        &["1", "\"deep\"", "[[1]]", "(1, (2, (3, 4)))", "2.5"],
+    ),
+    (
+        "p := (xs: [int|string]) -> ([int|string], [int|string]) { return xs~ \\ (v: int|string) -> bool { return if q: int = v { true } else { false } } }; p",
+        &["[1, \"a\"]", "[\"b\", \"c\"]", "[2, 3]", "[]"],
+    ),
+    (
+        "d := (t: (int, string)|(float, bool)|(string, int, int)) -> any { return match t { a: (int, string) => a.0, b: (float, bool) => b.1, c: (string, int, int) => c.2, } }; d",
+        &["(1, \"s\")", "(2.5, true)", "(\"q\", 5, 6)", "(9, \"z\")"],
+    ),
+];
+
 // ---------------------------------------------------------------------------------------------
 // workload swarm
 
@@ -740,7 +934,7 @@ pub fn gen_concurrent(seed: u64, boot_seed: u64, run: u64) -> Scenario {
     let mut rng = Rng::new(derive_n(seed, "c16-workload", run));
     let key_seed = derive_n(seed, "c16-keys", run);
     let sched_seed = derive_n(seed, "c16-schedule", run);
-    let shared_code = rng.chance(1, 6);
+    let shared_code = rng.chance(1, 4);
     let nthreads = if rng.chance(1, 3) { 3 } else { 2 };
     let policy = match rng.below(5) {
         0 => Policy::Random { stick: 0 },
@@ -748,6 +942,14 @@ pub fn gen_concurrent(seed: u64, boot_seed: u64, run: u64) -> Scenario {
         2 => Policy::Random { stick: 13 },
         k => Policy::Pct { depth: k - 1 + rng.below(2), est_steps: 10 + rng.below(60) },
     };
+    if shared_code && rng.chance(1, 2) {
+        let (prog, pool) = SHARED_FNS[rng.below(SHARED_FNS.len())];
+        let calls = 1 + rng.below(3);
+        let threads = (0..nthreads)
+            .map(|_| (0..calls).map(|_| Op { cell: 0, path: 0, kind: OpKind::Attack(pool[rng.below(pool.len())].to_string()) }).collect())
+            .collect();
+        return Scenario { boot_seed, key_seed, mode: "shared_fn".into(), threads, prog: prog.to_string(), policy, sched_seed, lock_policy: 0 };
+    }
     if shared_code {
         return Scenario {
             boot_seed,
@@ -764,8 +966,8 @@ pub fn gen_concurrent(seed: u64, boot_seed: u64, run: u64) -> Scenario {
     let focus = match rng.below(6) {
         0 => vec![0],
         1 => vec![0, 7],
-        2 => vec![rng.below(9)],
-        3 => vec![0, 3, 4],
+        2 => vec![[0usize, 1, 2, 3, 4, 5, 6, 7, 8, 10, 11][rng.below(11)]],
+        3 => vec![[0usize, 3, 4], [10, 11, 4], [10, 10, 0]][rng.below(3)].to_vec(),
         4 => vec![6, 0],
         _ => vec![],
     };
@@ -974,6 +1176,9 @@ fn find_failing(sc: &Scenario, class: &str, budget: u64) -> Option<(Scenario, Ru
     if sc.threads.len() <= 1 && sc.mode == "cells" {
         return None;
     }
+    if sc.mode == "shared_fn" && sc.threads.iter().all(|t| t.is_empty()) {
+        return None;
+    }
     for i in 0..budget {
         let mut s = sc.clone();
         s.sched_seed = derive_n(sc.sched_seed ^ 0xD0D0, "research", i);
@@ -1000,7 +1205,7 @@ pub fn minimise(input: &Value) -> Value {
     let Some((mut best, mut best_rep)) = find_failing(&sc, &class, 0) else {
         return json!({"reproduced": false});
     };
-    if sc.mode == "cells" {
+    if sc.mode == "cells" || sc.mode == "shared_fn" {
         // flatten (thread, op) pairs, ddmin over them
         let flat: Vec<(usize, Op)> = sc.threads.iter().enumerate().flat_map(|(t, ops)| ops.iter().map(move |o| (t, o.clone()))).collect();
         let nthreads = sc.threads.len();
